@@ -564,6 +564,49 @@ func checkTokenIDUses(c *Ctx, p *core.Prog) {
 			}
 		}
 	}
+	// R04.10: a token id travels through go-diff as a rune, i.e. through a string and back, which the surrogate code points
+	// U+D800..U+DFFF do not survive (each comes back as U+FFFD). A conversion between token ids and runes is therefore
+	// made only by a function that steps around that range (it compares the rune with the range's bounds).
+	nConv := 0
+	for _, fn := range p.SrcFuncs(v2pkg) {
+		if core.FuncPkgPath(fn) != v2pkg {
+			continue
+		}
+		guards := false
+		for _, b := range fn.Blocks {
+			for _, in := range b.Instrs {
+				if bo, ok := in.(*ssa.BinOp); ok {
+					switch bo.Op {
+					case token.LSS, token.LEQ, token.GTR, token.GEQ:
+						for _, v := range []ssa.Value{bo.X, bo.Y} {
+							if k, isK := core.ConstInt(v); isK && k >= 0xD800 && k <= 0xE000 {
+								guards = true
+							}
+						}
+					}
+				}
+			}
+		}
+		for _, b := range fn.Blocks {
+			for _, in := range b.Instrs {
+				cv, ok := in.(*ssa.Convert)
+				if !ok {
+					continue
+				}
+				isRune := func(t types.Type) bool {
+					bt, ok := t.Underlying().(*types.Basic)
+					return ok && bt.Kind() == types.Int32
+				}
+				if !(isTID(cv.X.Type()) && isRune(cv.Type())) && !(isRune(cv.X.Type()) && isTID(cv.Type())) {
+					continue
+				}
+				nConv++
+				c.R.Check(guards, "R04.10", core.ShortFn(fn)+": a token id is turned into a diff rune (or back) around the surrogate range", p.Pos(cv.Pos()), "the converting function compares the rune with the bounds of U+D800..U+DFFF",
+					"token ids are converted to runes one to one: from the 55296th distinct corpus word on, 2048 ids fall on surrogate code points, which go-diff's string conversion turns into U+FFFD - substitutions between such words are reported as equal and the words recovered from the diff are wrong, so results depend on how many words were interned before")
+			}
+		}
+	}
+	c.R.RequireMin("R04.10", "conversions between token ids and runes", nConv, 2)
 	c.R.Count("R04.6:token id operations", n)
 	if bad == 0 {
 		c.R.OK("R04.6", "token ids are only compared for equality, used as map keys, or converted to diff runes", "-", fmt.Sprintf("%d operations on tokenID values inspected", n))
